@@ -227,8 +227,13 @@ fn lowrank_rank0(report: &mut Report, seed: u64, idx: u64) {
     let mut rng = HRng::new(seed).fork(0x2A0 + idx);
     let d = 1 + rng.below(12) as usize;
     let sigma: Vec<f64> = (0..d).map(|_| rng.log_range(1e-3, 1e3)).collect();
-    let offset = *rng.choose(&[0.0, 1.0, 1e3, 1e6]);
+    let offset = *rng.choose(&[0.0, 1.0, 1e3, 1e6, 1e8]);
     let mu: Vec<f64> = (0..d).map(|i| sigma[i] * offset * if rng.bool(0.5) { 1.0 } else { -1.0 } * rng.range(0.5, 2.0)).collect();
+    // one case in three has a history: the matrix was first adapted to a strongly correlated Gaussian (a low-rank
+    // correction is installed), then the window below arrives; nothing of the old correction may survive
+    let history = idx % 3 == 2 && d >= 2;
+    let (h_mu, h_prec, _) = dense_gauss(&mut rng, d, 1e4);
+    let h_pts: Vec<Vec<f64>> = (0..(d + 10)).map(|_| (0..d).map(|i| h_mu[i] + 2.0 * rng.normal()).collect()).collect();
     let n = d + 3 + rng.below(40) as usize;
     let pts: Vec<Vec<f64>> = (0..n).map(|_| (0..d).map(|i| mu[i] + sigma[i] * rng.normal()).collect()).collect();
     let tests: Vec<Vec<f64>> = (0..4).map(|_| (0..d).map(|i| mu[i] + 2.0 * sigma[i] * rng.normal()).collect()).collect();
@@ -241,12 +246,26 @@ fn lowrank_rank0(report: &mut Report, seed: u64, idx: u64) {
             let mut strat = LowRankMassMatrixStrategy::new(d, settings);
             let mut mm = LowRankMassMatrix::new(&mut math, settings);
             let mut coll = new_draw_grad_collector(&mut math);
+            let mut rank_before = 0usize;
+            if history {
+                let mut first = LowRankMassMatrixStrategy::new(d, settings);
+                for p in &h_pts {
+                    let dx: Vec<f64> = (0..d).map(|i| p[i] - h_mu[i]).collect();
+                    let g: Vec<f64> = mat_vec(&h_prec, &dx).iter().map(|v| -v).collect();
+                    set_draw_grad_collector(&mut math, &mut coll, p, &g, true);
+                    MassMatrixAdaptStrategy::<SM>::update_estimators(&mut first, &mut math, &coll);
+                }
+                MassMatrixAdaptStrategy::<SM>::adapt(&first, &mut math, &mut mm);
+                rank_before = mm.verif_parts(&mut math).inner.map(|i| i.0.len()).unwrap_or(0);
+            }
             for p in &pts {
                 set_draw_grad_collector(&mut math, &mut coll, p, &gauss_grad_diag(&mu2, &sigma2, p), true);
                 MassMatrixAdaptStrategy::<SM>::update_estimators(&mut strat, &mut math, &coll);
             }
+            let id_before = mm.verif_parts(&mut math).id;
             MassMatrixAdaptStrategy::<SM>::adapt(&strat, &mut math, &mut mm);
             let parts = mm.verif_parts(&mut math);
+            let rejected = parts.id == id_before;
             let mut worst: f64 = 0.0;
             for t in &tests {
                 let g = gauss_grad_diag(&mu2, &sigma2, t);
@@ -261,18 +280,27 @@ fn lowrank_rank0(report: &mut Report, seed: u64, idx: u64) {
                 let num: f64 = yv.iter().zip(&gyv).map(|(a, b)| (a + b) * (a + b)).sum::<f64>().sqrt();
                 worst = worst.max(num / norm(&yv).max(1e-300));
             }
-            (parts, worst)
+            (parts, worst, rejected, rank_before > 0)
         })
     });
     let mut h = Fnv::new();
-    h.str("lowrank_rank0").u64(d as u64 / 3).u64(if offset > 0.0 { offset.log10() as u64 + 1 } else { 0 });
+    h.str("lowrank_rank0").u64(d as u64 / 3).u64(if offset > 0.0 { offset.log10() as u64 + 1 } else { 0 }).u64(history as u64);
     report.nontrivial(h.finish());
     match r {
         None => report.violation("C08:lowrank:hang", format!("estimator did not return within 60 s (d {d}, {n} points)"), replay),
         Some(Err(p)) => report.violation(format!("C08:lowrank:panic:{}", panic_site(&p)), p, replay),
-        Some(Ok((parts, worst))) => {
+        Some(Ok((parts, worst, rejected, had_correction))) => {
             report.count("lowrank_rank0_windows_checked", 1);
-            if parts.id < 0 {
+            if had_correction {
+                report.count("lowrank_windows_after_an_installed_correction", 1);
+            }
+            // consistency of the log-determinant with the installed scales: -(sum ln std + sum ln sqrt(eig))
+            let want_logdet = -parts.stds.iter().map(|v| v.ln()).sum::<f64>() - parts.inner.as_ref().map(|i| i.0.iter().map(|v| v.ln()).sum::<f64>()).unwrap_or(0.0);
+            if !rejected && !((parts.logdet - want_logdet).abs() <= 1e-8 * (1.0 + want_logdet.abs())) {
+                report.violation("C08:lowrank:logdet_inconsistent", format!("logdet {} vs -(sum ln std + sum ln sqrt eig) = {want_logdet} (history {had_correction})", parts.logdet), replay.clone());
+                return;
+            }
+            if rejected {
                 report.violation("C08:lowrank:no_update_with_enough_draws", format!("{n} Gaussian draws in dimension {d} (|mean|/std {offset:e}): the estimate was rejected"), replay.clone());
                 return;
             }
@@ -377,13 +405,15 @@ fn robust_case(report: &mut Report, seed: u64, idx: u64) {
     let d = 1 + rng.below(if lowrank { 12 } else { 50 }) as usize;
     let n = 3 + rng.below(30) as usize;
     let (cd, cg) = ((idx / 2) % 12, (idx / 24) % 12);
+    // diagonal estimator: scales from the draw / gradient variance ratio (default) or from the draw variance alone
+    let draw_only = !lowrank && (idx / 288) % 2 == 1;
     let sigma: Vec<f64> = (0..d).map(|_| rng.log_range(0.1, 10.0)).collect();
     let mu: Vec<f64> = (0..d).map(|_| rng.range(-2.0, 2.0)).collect();
     let sane_x: Vec<Vec<f64>> = (0..n).map(|_| (0..d).map(|i| mu[i] + sigma[i] * rng.normal()).collect()).collect();
     let sane_g: Vec<Vec<f64>> = sane_x.iter().map(|x| gauss_grad_diag(&mu, &sigma, x)).collect();
     let xs = hostile(&mut rng, cd, n, d, &sane_x);
     let gs = hostile(&mut rng, cg, n, d, &sane_g);
-    let which = if lowrank { "lowrank" } else { "diag" };
+    let which = if lowrank { "lowrank" } else if draw_only { "diag_draw_only" } else { "diag" };
     let replay = json!({"kind": "robust", "seed": seed, "idx": idx});
     let mut h = Fnv::new();
     h.str("robust").str(which).u64(cd).u64(cg);
@@ -413,8 +443,9 @@ fn robust_case(report: &mut Report, seed: u64, idx: u64) {
             } else {
                 let mut mm = diag_new(&mut math, false);
                 let mut coll = new_draw_grad_collector(&mut math);
+                let dsettings = DiagAdaptExpSettings { use_grad_based_estimate: !draw_only, ..Default::default() };
                 for (windows_x, windows_g) in [(&sx, &sg), (&xs_in, &gs_in)] {
-                    let mut strat = <DiagAdaptStrategy<SM> as MassMatrixAdaptStrategy<SM>>::new(&mut math, DiagAdaptExpSettings::default(), 100, 0);
+                    let mut strat = <DiagAdaptStrategy<SM> as MassMatrixAdaptStrategy<SM>>::new(&mut math, dsettings, 100, 0);
                     for (p, g) in windows_x.iter().zip(windows_g.iter()) {
                         set_draw_grad_collector(&mut math, &mut coll, p, g, true);
                         strat.update_estimators(&mut math, &coll);
@@ -475,7 +506,7 @@ fn robust_case(report: &mut Report, seed: u64, idx: u64) {
             if !lowrank {
                 let want: f64 = after.1.iter().map(|x| x.ln()).sum();
                 if !((after.2 - want).abs() <= 1e-9 * (1.0 + want.abs())) {
-                    report.violation("C08:diag:logdet_inconsistent", format!("window {tag}: logdet {} vs sum ln inv_std {want}", after.2), replay.clone());
+                    report.violation(&format!("C08:{which}:logdet_inconsistent"), format!("window {tag}: logdet {} vs sum ln inv_std {want}", after.2), replay.clone());
                     return;
                 }
             }
@@ -484,21 +515,20 @@ fn robust_case(report: &mut Report, seed: u64, idx: u64) {
                 for i in 0..d {
                     let col_x: Vec<f64> = xs.iter().map(|r| r[i]).collect();
                     let col_g: Vec<f64> = gs.iter().map(|r| r[i]).collect();
-                    let invalid = col_x.iter().chain(col_g.iter()).any(|v| !v.is_finite())
-                        || col_x.iter().all(|v| *v == col_x[0])
-                        || col_g.iter().all(|v| *v == col_g[0]);
-                    if invalid && after.0[i].to_bits() != before.0[i].to_bits() {
-                        // a finite positive replacement is tolerated only if it is the value the formula gives for
-                        // finite input; with non-finite or constant input there is no valid estimate
-                        let nonfinite = col_x.iter().chain(col_g.iter()).any(|v| !v.is_finite());
-                        if nonfinite {
-                            report.violation(
-                                "C08:diag:invalid_estimate_replaced_previous_value",
-                                format!("window {tag}: coordinate {i} has non-finite input but std changed {} -> {}", before.0[i], after.0[i]),
-                                replay.clone(),
-                            );
-                            return;
-                        }
+                    // no valid estimate exists when an input the estimate depends on is non-finite or has exactly zero
+                    // variance: the previous value must stay, bit for bit
+                    let bad = |col: &[f64]| col.iter().any(|v| !v.is_finite()) || col.iter().all(|v| *v == col[0]);
+                    let must_keep = bad(&col_x) || (!draw_only && bad(&col_g));
+                    if must_keep && after.0[i].to_bits() != before.0[i].to_bits() {
+                        report.violation(
+                            format!("C08:{which}:invalid_estimate_replaced_previous_value"),
+                            format!("window {tag}: coordinate {i} has non-finite or constant input but std changed {:e} -> {:e}", before.0[i], after.0[i]),
+                            replay.clone(),
+                        );
+                        return;
+                    }
+                    if must_keep {
+                        report.count("invalid_coordinates_kept_previous_value", 1);
                     }
                 }
             }
